@@ -479,6 +479,7 @@ def oracle (toks : List String) (impl : String) : Option String :=
       | some why => s!"fails {why}"
   | ["c18.app", _, _, _, items] => some <|
       if impl.startsWith "timeout" then "fails the history did not finish (hang)" else
+      if impl.startsWith "panic" then s!"fails a request handler panicked ({impl})" else
       match checkAppHist (items.splitOn ",") (impl.splitOn ",") with
       | none => "holds"
       | some why => s!"fails {why}"
